@@ -95,20 +95,20 @@ def close(a: torch.Tensor, b: torch.Tensor, tol: float) -> bool:
 
 
 def pick_cfgs(rng: random.Random, n: int) -> List[Dict[str, Any]]:
-    allc = ops.configs(rng, "quick")
-    by: Dict[str, List[Dict[str, Any]]] = {}
+    """One float64 configuration for every (op, discrete hyper-parameter variant) -- a tracing branch typically drops or
+    mis-forwards ONE non-default argument -- plus random extras in the other dtypes up to n."""
+    allc = [c for c in ops.configs(rng, "quick") if "dtype" not in c and not (c["op"] == "dropout" and c["p"] > 0 and c["training"])]
+    # dropout with p>0 in training mode: eager and compiled RNG streams differ by design of torch
+    def variant(c):
+        return (c["op"], c.get("approximate"), c.get("is_causal"), c.get("mask"), c.get("reduction"), c.get("affine"), c.get("training"),
+                c.get("padding_idx") is None, c.get("scalar") is None, bool(c.get("n_ignored")), bool(c.get("prob_target")), c.get("bias", None), c.get("heads") is None)
+    groups: Dict[Any, List[Dict[str, Any]]] = {}
     for c in allc:
-        if c["op"] == "dropout" and c["p"] > 0 and c["training"]:
-            continue   # RNG streams differ between eager and compiled dropout by design of torch
-        by.setdefault(c["op"], []).append(c)
-    out = []
+        groups.setdefault(variant(c), []).append(c)
+    out = [dict(rng.choice(v), dtype="f64") for k, v in sorted(groups.items(), key=lambda kv: repr(kv[0]))]
     while len(out) < n:
-        for op in sorted(by):
-            out.append(rng.choice(by[op]))
-            if len(out) >= n:
-                break
-    # dtype coverage incl. float64 (the tight bound) and bf16
-    return [dict(c, dtype=rng.choice(["f64", "f64", "f32", "bf16"])) if "dtype" not in c else c for c in out]
+        out.append(dict(rng.choice(allc), dtype=rng.choice(["f64", "f32", "bf16"])))
+    return out
 
 
 # ---- compositions of 2-6 unit-scaled ops / modules
@@ -165,7 +165,7 @@ def run(rep: Report, tier: str) -> None:
     common.tlc_must_pass(res, "ScaledOps_MC")
     rep.add_tlc(res)
     modes = ["aot_eager"] + ([] if quick else ["inductor"])
-    cfgs = pick_cfgs(rng, 48 if quick else 200)
+    cfgs = pick_cfgs(rng, 70 if quick else 250)
     classes = fnlog.Classes()
     events: List[List[Any]] = []
     cfg_of: Dict[int, Dict[str, Any]] = {}
